@@ -3,5 +3,6 @@ CONSTANTS Tokens = {"a", "b"}
           MaxLen = 2
           MaxCalcs = 3
           ResetOnFailure = TRUE
+          AsyncCopy = FALSE
 INVARIANTS Emit
 CHECK_DEADLOCK FALSE
